@@ -51,6 +51,13 @@ func (b *fakeBC) WatchBlocks(context.Context) <-chan uint64 { panic("unexpected 
 type fakeBeacon struct {
 	beaconchain.Interface
 	cfg *beaconchain.Config
+	// key of the result the chain accepted (nil: none): the anchored code does not ask, but a
+	// chain that is asked answers truthfully instead of crashing the harness
+	registered []byte
+}
+
+func (c *fakeBeacon) IsGroupRegistered(key []byte) (bool, error) {
+	return c.registered != nil && string(c.registered) == string(key), nil
 }
 
 func (c *fakeBeacon) GetConfig() *beaconchain.Config { return c.cfg }
@@ -169,12 +176,21 @@ func exec(op string) (string, string) {
 					done <- out{nil, fmt.Errorf("PANIC %v", e)}
 				}
 			}()
-			ids, err := dkg.VerifC05DecideMemberFate(group.MemberIndex(me), res, evCh, start, &fakeBeacon{cfg: cfg}, bc)
+			fb := &fakeBeacon{cfg: cfg}
+			if f[7] != "-" {
+				fb.registered = keyBytes(f[7])
+			}
+			ids, err := dkg.VerifC05DecideMemberFate(group.MemberIndex(me), res, evCh, start, fb, bc)
 			done <- out{ids, err}
 		}()
 		var awaited uint64
 		select {
 		case awaited = <-bc.awaited:
+		case r := <-done: // decided without waiting for the event / timeout at all
+			if r.err != nil {
+				return "T=- " + errClass(r.err), "fate+nowait"
+			}
+			return "T=- " + resolve(addrs(f[10]), r.ids, cfg), "fate+nowait"
 		case <-time.After(10 * time.Second):
 			return "HANG", "hang"
 		}
